@@ -8,21 +8,7 @@
   +-1024); the lemmas hold for vertices within +-8192 (`Triangle.SmallPt`, Lemmas/TriangleI32.lean,
   the range of Props/C19/Arithmetic.lean) and any probed point / scanline row.
 -/
-import EG.Lemmas.CheckedDS
-import EG.Lemmas.CheckedTriangle
-namespace EG.DS
-/-- all three vertices within -1152 ..= 2176 -/
-def xtri (t : Triangle) : Prop := xpt t.v1 ∧ xpt t.v2 ∧ xpt t.v3
-/-- all three vertices within +-1024 (the property text) -/
-def tri (t : Triangle) : Prop := pt t.v1 ∧ pt t.v2 ∧ pt t.v3
-instance (t : Triangle) : Decidable (xtri t) := by unfold xtri; exact inferInstance
-instance (t : Triangle) : Decidable (tri t) := by unfold tri; exact inferInstance
-theorem tri_x {t : Triangle} (h : tri t) : xtri t := ⟨pt_x h.1, pt_x h.2.1, pt_x h.2.2⟩
-theorem xpt_small {p : Pt} (h : xpt p) : Triangle.SmallPt p := by
-  obtain ⟨⟨_, _⟩, ⟨_, _⟩⟩ := h
-  unfold Triangle.SmallPt; omega
-end EG.DS
-
+import EG.Lemmas.CheckedDSMore
 namespace EG.C08
 open EG EG.Chk EG.Triangle
 
